@@ -58,9 +58,7 @@ Print Assumptions C10_disconnect_causes.
 
 (* 5. handler_raise_irrelevant (per call; every handler call of the loop goes through
       call_handler): whether the handler raised changes neither the state nor the event, only the
-      logged line SExc.   [partial: the lifting to whole iterations is structural — srv_step uses the
-      oracle through call_handler only — and is checked by the correspondence run with raising
-      handlers in every event; it is not stated as a theorem over srv_step] *)
+      logged line SExc.   [per call; the lift to whole runs is theorem 5' below] *)
 Theorem C10_handler_raise_irrelevant_call_partial : forall h e s ev,
   fst (call_handler h e s ev) = fst (call_handler (strip h) e s ev) /\
   snd (call_handler (strip h) e s ev) = [SEv ev] /\
@@ -81,6 +79,17 @@ Theorem C10_handler_raise_irrelevant : forall h e g bl ins,
 Proof. exact C10_handler_raise_irrelevant_proof. Qed.
 Print Assumptions C10_handler_raise_irrelevant.
 
+(* more generally: two handlers that make the same client.send / client.disconnect calls in every
+   handler call and differ only in WHICH calls raise (any pattern of exceptions, in any event) drive
+   the loop to the same state, the same trace up to the exception lines and the same events *)
+Theorem C10_raise_pattern_irrelevant : forall h1 h2 e g bl ins,
+  (forall n ev, r_acts (h1 n ev) = r_acts (h2 n ev)) ->
+  fst (srv_life h1 e g bl ins) = fst (srv_life h2 e g bl ins) /\
+  noexc (snd (srv_life h1 e g bl ins)) = noexc (snd (srv_life h2 e g bl ins)) /\
+  hlog (snd (srv_life h1 e g bl ins)) = hlog (snd (srv_life h2 e g bl ins)).
+Proof. exact C10_raise_pattern_irrelevant_proof. Qed.
+Print Assumptions C10_raise_pattern_irrelevant.
+
 (* the same from ANY server state (not only the initial one) *)
 Theorem C10_handler_raise_irrelevant_run : forall h e s ins,
   fst (srv_run (strip h) e s ins) = fst (srv_run h e s ins) /\
@@ -96,8 +105,8 @@ Print Assumptions C10_strip_never_logs.
 
 (* 6. tokens (D10): for EVERY urandom stream the token handed out is non-zero, is not the token of
       any connection object in either pool, and is a masked value of the stream
-      [partial: the run-level invariant "pooled objects carry pairwise distinct non-zero tokens" is
-      checked by the oracle at every iteration, not proved] *)
+      [per get_token call; the run-level invariant "pooled objects carry pairwise distinct non-zero
+      tokens, connected ones a non-zero token" is theorem 6' below] *)
 Theorem C10_token_fresh_partial : forall used rand t rest,
   get_token used rand = Some (t, rest) ->
   t <> 0 /\ ~ In t used /\ exists r, In r rand /\ t = mask_token r.
